@@ -147,6 +147,18 @@ def run(ctx):
     for bad in ["'abc", "'a\\'", "`1", "`{`", "`[1,]`", "`tru`", '"abc', '"\\ud800"', '"\\x"', '"a\nb"', '"\x01"', "`\"\\ud800\"`", "``", "`1 2`",
                 '"a"(@)', "a.'b'"]:
         cases.append(("malformed", bad, "{ }", None))
+    # inside a JSON literal only JSON is JSON: raw control characters in a string, and white space other than space / tab / LF / CR around the
+    # value, make the literal invalid whatever shape the value has (string, number, keyword, array, object)
+    for ctl in ["\t", "\n", "\r", "\x00", "\x01", "\x1f", "\x0b", "\x0c"]:
+        for shape in ['"a%sb"', '"%s"', '["a%sb"]', '{"k": "a%sb"}', '{"a%sb": 1}', ' "x%s" ']:
+            cases.append(("malformed", "`" + shape % ctl + "`", "{ }", None))
+    for ws in ["\u00a0", "\u2003", "\x0b", "\x0c", "\ufeff", "\u2028", "\u0085", "\u3000", "\u200b"]:
+        for val in ['"a"', "true", "1", "[1]", "{}", "null", '"a b"']:
+            cases.append(("malformed", "`" + ws + val + "`", "{ }", None))
+            cases.append(("malformed", "`" + val + ws + "`", "{ }", None))
+    for ws in [" ", "\t", "\n", "\r", " \n\t "]:
+        for val, want in [('"a"', E.dump(("s", "a"))), ("true", "t"), ("1", "u1"), ("[1]", "[ u1 ]"), ("null", "n")]:
+            cases.append(("literal", "`" + ws + val + ws + "`", "u0", want))
     if getattr(ctx, "replay", None):
         cases = [tuple(ctx.replay["case"])]
     impl, model = S.eval_run(ctx, [(c[1], c[2]) for c in cases])
